@@ -305,8 +305,76 @@ theorem Verdict_all_ok (l : List Verdict) (h : ∀ v ∈ l, v = .ok) : Verdict.a
     simp only [Verdict.all]
     exact ih (fun w hw => h w (List.mem_cons_of_mem _ hw))
 
+/-! the smoothing clauses of C06 on one record -/
+
+theorem ratAbs_eq (x : Rat) : ratAbs x = |x| := by
+  unfold ratAbs
+  split
+  · rename_i h; rw [abs_of_neg h]
+  · rename_i h; rw [abs_of_nonneg (not_lt.1 h)]
+
+theorem ratMin_eq (a b : Rat) : ratMin a b = min a b := by
+  unfold ratMin
+  split
+  · rename_i h; rw [min_eq_left h]
+  · rename_i h; rw [min_eq_right (le_of_lt (not_le.1 h))]
+
+theorem ratMax_eq (a b : Rat) : ratMax a b = max a b := by
+  unfold ratMax
+  split
+  · rename_i h; rw [max_eq_right h]
+  · rename_i h; rw [max_eq_left (le_of_lt (not_le.1 h))]
+
+theorem emaTol_nonneg : (0 : Rat) ≤ emaTol := by unfold emaTol; norm_num
+
+/-- a value within the rounding slack of a point between `p` and `s` is within the slack of the interval -/
+theorem close_between {p s e avg : Rat} (hlo : min p s ≤ e) (hhi : e ≤ max p s)
+    (hc : |e - avg| ≤ emaTol * (1 + |e|)) :
+    min p s - emaTol * (1 + max |p| |s|) ≤ avg ∧ avg ≤ max p s + emaTol * (1 + max |p| |s|) := by
+  have habs : |e| ≤ max |p| |s| := by
+    rcases le_total p s with h | h
+    · rw [min_eq_left h] at hlo; rw [max_eq_right h] at hhi
+      exact abs_le_max_abs_abs hlo hhi
+    · rw [min_eq_right h] at hlo; rw [max_eq_left h] at hhi
+      rw [max_comm]; exact abs_le_max_abs_abs hlo hhi
+  have hsl : emaTol * (1 + |e|) ≤ emaTol * (1 + max |p| |s|) :=
+    mul_le_mul_of_nonneg_left (by linarith) emaTol_nonneg
+  obtain ⟨c1, c2⟩ := abs_le.1 (le_trans hc hsl)
+  constructor <;> linarith
+
+/-- a record that is consistent with exact arithmetic (`recLegal`) and whose sample was not taken at an
+    earlier time than the one before has a weight in [0, 1] (if a weight was used) and a smoothed value
+    between the previous value and the sample -/
+theorem recLegal_smooth {r : AdjRec} (hdt : 0 ≤ r.dt) (hl : recLegal r = true) :
+    (r.prev.isSome = true → 0 ≤ r.w ∧ r.w ≤ 1) ∧ emaBetween r = true := by
+  unfold recLegal at hl
+  simp only [Bool.and_eq_true, Bool.or_eq_true, decide_eq_true_eq, ratAbs_eq] at hl
+  obtain ⟨hc, hw⟩ := hl
+  unfold emaBetween
+  simp only [Bool.and_eq_true, decide_eq_true_eq, ratAbs_eq, ratMin_eq, ratMax_eq]
+  cases hp : r.prev with
+  | none =>
+    rw [hp] at hc
+    simp only [Ema.update] at hc
+    refine ⟨fun h => by simp at h, ?_⟩
+    simp only [Option.getD_none]
+    exact close_between (by simp) (by simp) hc
+  | some p =>
+    rw [hp] at hc hw
+    simp only [Option.isNone_some, Bool.false_eq_true, false_or] at hw
+    have hu := Ema.weightLegal_unit hw hdt
+    refine ⟨fun _ => hu, ?_⟩
+    simp only [Option.getD_some]
+    obtain ⟨b1, b2⟩ := Ema.step_between r.w p (r.sample : Rat) hu.1 hu.2
+    exact close_between b1 b2 hc
+
+theorem c06Ema_ok (idx : Nat) (r : AdjRec) (hdt : 0 ≤ r.dt) (hl : recLegal r = true) : c06Ema idx r = .ok := by
+  obtain ⟨hw, hb⟩ := recLegal_smooth hdt hl
+  unfold c06Ema
+  rw [if_neg (not_lt.2 hdt), if_neg (by rintro ⟨hs, h | h⟩ <;> linarith [(hw hs).1, (hw hs).2]), if_pos hb]
+
 theorem c06Adj_ok (cfg : Cfg) (idx : Nat) (r : AdjRec) (h : adjGood cfg r) : c06Adj cfg idx r = .ok := by
-  obtain ⟨h1, h2, h3, h4⟩ := h
+  obtain ⟨h1, h2, h3, h4, _⟩ := h
   unfold c06Adj
   split
   · rename_i hc; exact absurd (h1 hc.1) (by omega)
@@ -316,8 +384,10 @@ theorem c06Adj_ok (cfg : Cfg) (idx : Nat) (r : AdjRec) (h : adjGood cfg r) : c06
       · simp [h3 he hc]
     · simp [h2 he]
 
-theorem c06At_ok (cfg : Cfg) (idx : Nat) (lb : St) (res : List ResV) (h : Full cfg lb.sub) :
-    c06At cfg idx (obsOf lb res) = .ok := by
+theorem Verdict.ok_and (f : Unit → Verdict) : Verdict.and .ok f = f () := rfl
+
+theorem c06At_ok (cfg : Cfg) (idx : Nat) (lb : St) (res : List ResV) (h : Full cfg lb.sub)
+    (hl : lb.sub.adjLog.all recLegal = true) : c06At cfg idx (obsOf lb res) = .ok := by
   have hp := obs_eligible lb res
   have hs := obs_servers lb res
   unfold c06At
@@ -351,12 +421,16 @@ theorem c06At_ok (cfg : Cfg) (idx : Nat) (lb : St) (res : List ResV) (h : Full c
       rw [heapEps_length] at this
       have := Nat.min_le_right cfg.minSize lb.sub.hs.servers.length; omega
   rw [if_neg h4]
+  have he : Verdict.all ((obsOf lb res).adj.map (c06Ema idx)) = .ok := by
+    apply Verdict_all_ok
+    intro v hv
+    obtain ⟨r, hr, rfl⟩ := List.mem_map.1 hv
+    exact c06Ema_ok idx r (h.log r hr).2.2.2.2 (List.all_eq_true.1 hl r hr)
+  rw [he, Verdict.ok_and]
   apply Verdict_all_ok
   intro v hv
   obtain ⟨r, hr, rfl⟩ := List.mem_map.1 hv
   exact c06Adj_ok cfg idx r (h.log r hr)
-
-theorem Verdict.ok_and (f : Unit → Verdict) : Verdict.and .ok f = f () := rfl
 
 theorem c06Total_ok (cfg : Cfg) (idx : Nat) (lb : St) (res : List ResV) (t : TInv cfg lb.sub) :
     c06Total cfg idx (flagsOf lb.sub.hs) (obsOf lb res) = .ok := by
@@ -365,12 +439,13 @@ theorem c06Total_ok (cfg : Cfg) (idx : Nat) (lb : St) (res : List ResV) (t : TIn
   rw [this, t]; simp
 
 theorem specC06_trace (cfg : Cfg) (ops : List Op) : ∀ (p : Proto) (lb : St) (idx : Nat), RInv cfg p lb →
-    TInv cfg lb.sub → protoOk p ops = true →
+    TInv cfg lb.sub → protoOk p ops = true → logsLegal cfg lb ops = true →
     specC06Go cfg idx (flagsOf lb.sub.hs) (comp6.trace cfg lb ops) = .ok := by
   induction ops with
-  | nil => intro p lb idx _ _ _; rfl
+  | nil => intro p lb idx _ _ _ _; rfl
   | cons op ops ih =>
-    intro p lb idx h t hp
+    intro p lb idx h t hp hlg
+    simp only [logsLegal, Bool.and_eq_true] at hlg
     simp only [protoOk] at hp
     cases hps : protoStep p op with
     | none => rw [hps] at hp; cases hp
@@ -382,8 +457,8 @@ theorem specC06_trace (cfg : Cfg) (ops : List Op) : ∀ (p : Proto) (lb : St) (i
       show specC06Go cfg idx (flagsOf lb.sub.hs)
         ((op, (step cfg lb op).2) :: comp6.trace cfg (step cfg lb op).1 ops) = .ok
       simp only [specC06Go, step]
-      rw [c06At_ok cfg idx _ _ h'.full, Verdict.ok_and, ← t1, c06Total_ok cfg idx _ _ (t2 t), Verdict.ok_and]
-      exact ih p' _ (idx + 1) h' (t2 t) hp
+      rw [c06At_ok cfg idx _ _ h'.full hlg.1, Verdict.ok_and, ← t1, c06Total_ok cfg idx _ _ (t2 t), Verdict.ok_and]
+      exact ih p' _ (idx + 1) h' (t2 t) hp hlg.2
 
 theorem TInv.init (cfg : Cfg) : TInv cfg (init cfg).sub := by
   unfold TInv expectedTotal flagsOf
@@ -480,6 +555,45 @@ theorem run_RInv (cfg : Cfg) (ops : List Op) : ∀ (p : Proto) (lb : St), RInv c
 theorem wf_proto {cfg : Cfg} {ops : List Op} (h : wf cfg ops = true) :
     protoOk { ref := cfg.initial } ops = true := by
   unfold wf at h; simp only [Bool.and_eq_true] at h; exact h.1
+
+theorem wf6_wf {cfg : Cfg} {ops : List Op} (h : wf6 cfg ops = true) : wf cfg ops = true := by
+  unfold wf6 at h; simp only [Bool.and_eq_true] at h; exact h.1
+
+theorem wf6_legal {cfg : Cfg} {ops : List Op} (h : wf6 cfg ops = true) : logsLegal cfg (init cfg) ops = true := by
+  unfold wf6 at h; simp only [Bool.and_eq_true] at h; exact h.2
+
+/-- under `logsLegal` every record of every observation of the run is `recLegal` -/
+theorem trace_legal (cfg : Cfg) (ops : List Op) : ∀ lb : St, logsLegal cfg lb ops = true →
+    ∀ p ∈ comp6.trace cfg lb ops, ∀ r ∈ p.2.adj, recLegal r = true := by
+  induction ops with
+  | nil => intro lb _ p hp; simp [TComp.trace] at hp
+  | cons op ops ih =>
+    intro lb hlg p hp r hr
+    simp only [logsLegal, Bool.and_eq_true] at hlg
+    have ht : comp6.trace cfg lb (op :: ops) = (op, (step cfg lb op).2) :: comp6.trace cfg (step cfg lb op).1 ops := rfl
+    rw [ht, List.mem_cons] at hp
+    rcases hp with rfl | hp
+    · exact List.all_eq_true.1 hlg.1 r hr
+    · exact ih _ hlg.2 p hp r hr
+
+/-- every record of every observation of a run follows the decision table and has a time delta ≥ 0 -/
+theorem trace_adjGood (cfg : Cfg) (ops : List Op) : ∀ (p : Proto) (lb : St), RInv cfg p lb → protoOk p ops = true →
+    ∀ q ∈ comp6.trace cfg lb ops, ∀ r ∈ q.2.adj, adjGood cfg r := by
+  induction ops with
+  | nil => intro p lb _ _ q hq; simp [TComp.trace] at hq
+  | cons op ops ih =>
+    intro p lb h hp q hq r hr
+    simp only [protoOk] at hp
+    cases hps : protoStep p op with
+    | none => rw [hps] at hp; cases hp
+    | some p' =>
+      rw [hps] at hp
+      obtain ⟨h', _, _⟩ := h.step op hps
+      have ht : comp6.trace cfg lb (op :: ops) = (op, (step cfg lb op).2) :: comp6.trace cfg (step cfg lb op).1 ops := rfl
+      rw [ht, List.mem_cons] at hq
+      rcases hq with rfl | hq
+      · exact h'.full.log r hr
+      · exact ih p' _ h' hp q hq r hr
 
 
 end Scales.LB
